@@ -271,3 +271,122 @@ func (w *World) doReader() {
 		}
 	}
 }
+
+// doRawEntry: entries of arbitrary shape made directly with the entry API (not through a log):
+// any number of predecessors and references (also references without predecessors), and
+// hand-built entries whose key, signature, identity and clock are unrelated byte strings.
+func (w *World) doRawEntry() {
+	r := w.R
+	n := w.pickUp("raw-node")
+	nNext := r.Choose("raw-nnext", 4)
+	nRefs := r.Choose("raw-nrefs", 5)
+	handBuilt := r.Choose("raw-handbuilt", 3) == 0
+	picks := make([]int, 9)
+	for i := range picks {
+		picks[i] = r.Choose("raw-pick", 1<<16)
+	}
+	clockT := r.Choose("raw-clock", 1<<20)
+	ver := 1 + r.Choose("raw-v", 2)
+	idMode := r.Choose("raw-identity", 3)
+	if n == nil {
+		return
+	}
+	pl := w.payload()
+	var next, refs []cid.Cid
+	known := w.M.Order
+	if len(known) > 0 {
+		for i := 0; i < nNext; i++ {
+			c := w.Cids[known[picks[i]%len(known)]]
+			if !containsCid(next, c) {
+				next = append(next, c)
+			}
+		}
+		for i := 0; i < nRefs; i++ {
+			c := w.Cids[known[picks[4+i]%len(known)]]
+			if !containsCid(refs, c) && !containsCid(next, c) {
+				refs = append(refs, c)
+			}
+		}
+	}
+	if !handBuilt {
+		e, err := entry.CreateEntryWithIO(w.ctx, w.St, n.W.ID, &entry.Entry{LogID: w.LogID, Payload: pl, Next: next, Refs: refs,
+			Clock: entry.NewLamportClock(n.W.ID.PublicKey, clockT)}, nil, w.IO)
+		if err != nil {
+			r.Violate(w.P.Prop+":create-entry", "CreateEntryWithIO failed for next=%d refs=%d: %v", len(next), len(refs), err)
+		}
+		me := w.register(e)
+		r.Logf("raw-entry %s next=%d refs=%d cid=%s", w.M.Name(me.Hash), len(next), len(refs), me.Hash)
+		if len(next) == 0 && len(refs) > 0 {
+			r.Probe("entry-with-refs-but-no-next")
+		}
+		w.afterAppend(n, e, me)
+		if w.P.Check["C07"] {
+			// the same single-field corruptions as for log entries
+			kind := picks[8] % nTamper
+			var other iface.IPFSLogEntry
+			if len(known) > 1 {
+				other = w.Ent[known[picks[7]%len(known)]]
+				if other != nil && other.GetHash().Equals(e.GetHash()) {
+					other = nil
+				}
+			}
+			if err := e.Verify(n.W.ID.Provider, w.IO); err != nil {
+				r.Violate("C07:honest-verify", "freshly created entry (next=%d refs=%d) does not verify: %v", len(next), len(refs), err)
+			}
+			tr := tamper(r, e, kind, other, Writers()[picks[6]%len(Writers())].ID.PublicKey)
+			if tr.applied && !tr.invisible {
+				r.Fault("tamper-" + tamperNames[kind])
+				if err := tr.e.Verify(n.W.ID.Provider, w.IO); err == nil {
+					r.Violate("C07:"+tamperNames[kind], "entry (next=%d refs=%d) with %s still verifies", len(next), len(refs), tr.detail)
+				}
+			}
+		}
+		return
+	}
+	if !w.P.Check["C08"] || w.Codec == "pb" {
+		return
+	}
+	// hand-built: fields are unrelated byte strings; the codec must carry them unchanged
+	rb := func(k, n int) []byte {
+		b := make([]byte, 1+k%n)
+		for i := range b {
+			b[i] = byte(k*31 + i*7)
+		}
+		return b
+	}
+	he := &entry.Entry{LogID: w.LogID, Payload: pl, Next: append([]cid.Cid{}, next...), V: uint64(ver),
+		Key: rb(picks[0], 65), Sig: rb(picks[1], 72), Clock: entry.NewLamportClock(rb(picks[2], 65), clockT)}
+	if ver > 1 {
+		he.Refs = append([]cid.Cid{}, refs...)
+	}
+	switch idMode {
+	case 1:
+		he.Identity = n.W.ID.Filtered()
+	case 2:
+		o := Writers()[picks[3]%len(Writers())].ID.Filtered()
+		he.Identity = o
+	}
+	c, err := entry.ToMultihashWithIO(w.ctx, he, w.St, nil, w.IO)
+	if err != nil {
+		r.Violate("C08:write", "hand-built entry (v%d, identity mode %d) does not encode: %v", ver, idMode, err)
+	}
+	he.Hash = c
+	r.Logf("hand-built entry v%d identity=%d next=%d refs=%d cid=%s", ver, idMode, len(he.Next), len(he.Refs), c.String())
+	r.Probe("hand-built-entry")
+	if w.LinkKeyBytes != nil && len(he.Next)+len(he.Refs) > 0 {
+		return // without PreSign the link codec writes links in clear: only the signing path encrypts
+	}
+	dec, err := entry.FromMultihashWithIO(w.ctx, w.St, c, n.W.ID.Provider, w.IO)
+	if err != nil {
+		r.Violate("C08:readback", "hand-built entry does not read back: %v", err)
+	}
+	if d := fieldDiff(he, dec); d != "" {
+		r.Violate("C08:readback-fields", "hand-built entry (v%d, identity mode %d) read back differs in %s", ver, idMode, d)
+	}
+	if w.Codec == "cbor" {
+		c2, err := entry.ToMultihashWithIO(w.ctx, dec, NewStore(), nil, w.IO)
+		if err != nil || !c2.Equals(c) {
+			r.Violate("C08:reencode", "re-encoding the decoded hand-built entry gives %v (err %v), not %v", c2, err, c)
+		}
+	}
+}
